@@ -22,6 +22,10 @@ def run(ctx, replay):
     # the order of the code before the repair (Send ; Mark) does
     ctx.model_check("MCFlushChecker", "MCFlushChecker.cfg", timeout=900)
     ctx.model_check("MCFlushChecker", "MCFlushChecker_dev_marklate.cfg", expect="violation", timeout=600)
+    # ... and under fair requesters and workers data never waits for ever in the repaired order, while the order before the
+    # repair lets it wait for ever (every request dropped at the stale mark)
+    ctx.model_check("MCFlushChecker", "MCFlushChecker_live.cfg", timeout=900)
+    ctx.model_check("MCFlushChecker", "MCFlushChecker_dev_marklate_live.cfg", expect="violation", timeout=900)
     tr = os.path.join(ctx.scratch, "flushchk.ndjson")
     nh, steps = (200, 16) if thorough else (30, 12)
     summ, rc, _ = ctx.run_vdrive(["flushchk", "--seed", ctx.seed, "--histories", nh, "--steps", steps, "--out", tr], timeout=3000)
